@@ -37,6 +37,17 @@ CLAIMS = {
         note='Not decided: "never stops making progress" (liveness). Table entries classed ASSUMED/API-PRECONDITION are trusted with their stated reason and echoed in the evidence. '
              'A new, correct but unprovable panic-capable site on a peer-driven path is reported until reviewed (conservative side).',
         ref='DESIGN.md section 5 C16'),
+    'C02': dict(
+        technique='panic-site enumeration over the decoders\' call graph + available-bytes must-dataflow + varint path enumeration + must-pass rule for the inbound size limit + property-loop extraction (static analysis on MIR)',
+        text='Structural part: every panic-capable MIR site (Buf get_*/advance/split_to, overflow and bounds asserts, slicing, unwrap/expect) reachable from the three Decoder::decode '
+             'roots is enumerated; Buf reads are proven in bounds by a forward available-bytes dataflow from the dominating remaining()/len() guards, additions by width reasoning, '
+             'every remaining site must match a reviewed table entry (count-limited). The variable-byte-integer decoders read at most four bytes and return at most 0x0FFF_FFFF on '
+             'every enumerated path. In both codecs no consumption or state change of the FrameHeader arm is reachable without the comparison against the configured inbound maximum, '
+             'and from its over-size edge only the MaxSizeExceeded error is reachable. All MQTT 5 property loops end their fall-through arm in Err and guard once-only properties; '
+             'no transmute / unchecked UTF-8 constructor is reachable from a decoder; only the two Codec::decode bodies consume from the receive buffer.',
+        note='Not decided: termination of the decode loop for all inputs, re-encode stability of every accepted packet, fragmentation independence (C10), and full spec '
+             'conformance of what is accepted (C01 covers the tables). Table entries are reviewed reasons, not machine proofs; each carries a maximum count.',
+        ref='DESIGN.md section 5 C02'),
     'C03': dict(
         technique='MIR path enumeration with branch conditions over publish_fn + who-constructs/who-writes rules (static analysis)',
         text='Every return path of the four publish_fn coroutines is enumerated from MIR with its branch conditions: an ack is built only where the handler future completed '
